@@ -82,3 +82,13 @@ Definition fast_match (bits kp e : N) : bool :=
   if sse_pk bits kp =? 0 then base_match bits kp e else lane_of bits e =? sse_pk bits kp.
 Definition find_spec (bits kp : N) (start : nat) (chunk : list N) : N * nat :=
   answer chunk (first_from (fast_match bits kp) chunk start (64 - start)%nat).
+
+(* ---- entry packing and key recovery (index.rs Entry::new / address / partial_key,
+   IndexTable::chunk_index / recover_key_prefix) ---- *)
+Definition entry_new (bits addr pk : N) : N := N.lor (shl64 pk (address_bits bits)) addr.
+Definition entry_address (bits e : N) : N := N.land e (2 ^ address_bits bits - 1).
+Definition chunk_index (bits kp : N) : N := N.shiftr kp (index_entry_bits - bits).
+(* restores the bits of the key that page number and partial key determine *)
+Definition recover_key_prefix (bits chunk e : N) : N :=
+  let k := 64 - address_bits bits in
+  N.lor (shl64 chunk (64 - bits)) (shl64 (pk_of bits e) (64 - k - bits)).
